@@ -23,5 +23,6 @@ def suites(tier):
     for cfg in product(file=[0, 1], dir=[0, 1], hidden=[0, 1], follow=[0, 1]):
         cfg.update(links=1)
         jobs.append(dict(id=jid("tree", cfg), func="zzH_C19_tree", cfg=cfg))
+    jobs.append(dict(id="args", func="zzH_C19_args", cfg={}))
     jobs.append(dict(id="opts", func="zzH_C19_opts", cfg=dict(nmax=3 if q else 5)))
     return [src_suite("src", jobs)]
